@@ -19,7 +19,7 @@ PROPS = {
  "C19": dict(level="exploration", quick=600, thorough=30000,
    rule="one evaluation = one simulated run; (roots) every block's extension carries the chain root computed by a from-scratch MMR (own merge rule per RFC 0044) over its ancestors, so acceptance by the node's BlockExtensionVerifier is an equality check on every fork; after every reorganisation and restart the node's Snapshot::chain_root_mmr(tip-1/tip).get_root() must equal the naive root; wrong/short/missing root mutants must be rejected. (proofs) at every quiescent point and after every restart, for three seeded (last block L, 1-6 ancestor positions) requests, the parent chain root and proof items produced from the stored MMR exactly as the light-client server's reply_proof does (chain_root_mmr(L-1).get_root / gen_proof) are rebuilt into a proof the way a client does (mmr size from L) and must verify against the MODEL's root and header digests, must not verify a header of another block at one of the positions, and must not verify against the root of another prefix. (filters) the block-filter builder runs as explicit passes at arbitrary moments (lagging behind by blocks, reorganisations and restarts; real BlockFilter::build_filter_data through a verif hook); after every pass every main-chain block must have a filter that matches each lock and type script hash of its outputs and spent inputs (inputs resolved through the model), whose bytes equal the encoding of exactly that set, and whose filter hash equals blake2b(parent filter hash || blake2b(filter)) from a zero hash at genesis; the latest-built mark must be the tip. non-trivial as C01",
    assumptions=["the light-client protocol handler itself (message parsing, sampling of positions for GetLastStateProof, missing-item handling) is not driven here: the proof is produced by the same store calls the handler makes; its robustness against malformed requests is covered by C16's handler part", "the golomb-coded-set and ckb-merkle-mountain-range crates' encode/verify routines are used by the oracle with model-derived inputs (elements, root, leaves)", "a reorganisation racing with a builder pass (the builder reads the live store while holding an older snapshot) is not simulated: passes are atomic steps"]),
- "C07": dict(level="exploration", quick=80, thorough=8000,
+ "C07": dict(level="exploration", quick=80, thorough=4000,
    rule="one evaluation = one simulated chain of 340-4300 blocks over 2-4 epochs of 300-1800 blocks with the REAL difficulty adjustment; the miners' clock runs in per-epoch regimes (30%-250% of the ideal pace, stalls of 1 ms per block, bursts, rare jumps of an hour or a day), uncle rates from 0 to 20%, primary-reward halving every 1-3 epochs; every epoch transition computed by the node must equal the model's exact big-rational evaluation of RFC 0020 (EpochExt compared field by field, header epoch/target enforced by the node's own verifier on model-built blocks), and the node's recorded epochs must satisfy: length within [300,1800] and within x2 of the previous, non-zero difficulty, hash-rate estimate within x2 of the previous, gap-free epoch fields, per-epoch sums of block rewards equal to the scheduled primary (with halvings) and secondary issuance, compact<->target<->difficulty conversions equal to an independent implementation and monotone on every target met. non-trivial = at least one epoch transition was reached",
    assumptions=["PARTIAL CLAIM: decided only for the epoch statistics reached by simulated histories (clock-driven durations, uncle rates, clamp boundaries); the same statements over the whole u64/U256 input space and all compact encodings are pure functions of their arguments and are not sampled here", "proof-of-work acceptance is not covered (Pow::Dummy in simulation)"]),
  "C20": dict(level="exploration", quick=700, thorough=40000,
